@@ -333,20 +333,19 @@ def check_clones(ctx, db):
 def check_units(ctx, db):
     f = db.fn('gdstk::RobustPath::to_oas')
     ctx.touch(f)
-    hw = next((v for v in f.walk() if v.k == 'VarDecl' and v.n == 'half_width'), None)
-    t = norm(hw.child('init').text()) if hw is not None else ''
-    m = re.match(r'^\(uint64_t\)llround\(\(\(\((.+) \* interp\(el->width_array\[0\], 0\)\) \* this->width_scale\) \* state\.scaling\)\)$', t)
-    ok = m is not None and m.group(1) == '0.5'
-    ctx.check(ok, 'R-UNIT', 'RobustPath::to_oas/half-width', hw.loc() if hw is not None else f.loc(), 'the OASIS PATH half-width field receives llround(0.5 x width x width_scale x scaling)',
-              'the OASIS PATH half-width is computed as `%s` (must be half of the interpolated width)' % t)
+    # the value of the field, evaluated (minieval.value_at) for a first width of 1280.5 / 1024 (interp answered by the harness), width_scale 2 and
+    # scaling 1024, with and without scale_width - whatever expression spells it
+    from .C07 import width_field_values
+    got, hw = width_field_values(db, f, {})
+    ctx.check(got == {1: 1281, 0: 1281}, 'R-UNIT', 'RobustPath::to_oas/half-width', hw.loc() if hw is not None else f.loc(), 'the OASIS PATH half-width field receives llround(0.5 x width x width_scale x scaling)',
+              'for a width of 1280.5 / 1024, width_scale 2 and scaling 1024 the OASIS PATH half-width is %s, expected 1281 (half of the scaled width, rounded)' % [got.get(1), got.get(0)])
     w = next((c for c in f.walk() if c.k == 'CallExpr' and c.callee == 'gdstk::oasis_write_unsigned_integer' and norm(c.args[1].text()) == 'half_width'), None)
     ctx.check(w is not None, 'R-UNIT', 'RobustPath::to_oas/half-width-written', f.loc(), 'that value is what is written after layer and datatype')
     g = db.fn('gdstk::RobustPath::to_gds')
     ctx.touch(g)
-    wv = next((v for v in g.walk() if v.k == 'VarDecl' and v.child('init') is not None and 'width_array[0]' in norm(v.child('init').text())), None)
-    tw = norm(wv.child('init').text()) if wv is not None else ''
-    okg = re.match(r'^\(\(this->scale_width \? 1 : \(-1\)\) \* \(int32_t\)lround\(\(\(interp\(el->width_array\[0\], 0\) \* this->width_scale\) \* scaling\)\)\)$', tw) is not None
-    ctx.check(okg, 'R-UNIT', 'RobustPath::to_gds/full-width', wv.loc() if wv is not None else g.loc(), 'the GDSII WIDTH record receives the full width (lround(width x width_scale x scaling))', 'GDSII WIDTH computed as `%s`' % tw)
+    got, wv = width_field_values(db, g, {})
+    ctx.check(got == {1: 2561, 0: -2561}, 'R-UNIT', 'RobustPath::to_gds/full-width', wv.loc() if wv is not None else g.loc(), 'the GDSII WIDTH record receives the full width (lround(width x width_scale x scaling)), negative when the width must not scale',
+              'for a width of 1280.5 / 1024, width_scale 2 and scaling 1024 the GDSII WIDTH is %s (scale_width true / false), expected [2561, -2561]' % [got.get(1), got.get(0)])
     # both writers take the centre line from element_center
     for fn_ in (f, g):
         ec = [c for c in fn_.walk() if c.k == 'CXXMemberCallExpr' and (c.callee or '').endswith('::element_center')]
